@@ -59,6 +59,20 @@ class _Canon(ast.NodeTransformer):
                 return ast.copy_location(ast.AugAssign(target=t, op=node.value.op, value=node.value.right), node)
         return node
 
+    def visit_Compare(self, node):
+        self.generic_visit(node)
+        if len(node.ops) == 1:
+            op, l, r = node.ops[0], node.left, node.comparators[0]
+            if isinstance(op, ast.Gt):
+                node.left, node.ops, node.comparators = r, [ast.Lt()], [l]
+            elif isinstance(op, ast.GtE):
+                node.left, node.ops, node.comparators = r, [ast.LtE()], [l]
+            elif isinstance(op, (ast.Eq, ast.NotEq)):
+                lc, rc = isinstance(l, ast.Constant), isinstance(r, ast.Constant)
+                if (lc and not rc) or (lc == rc and ast.unparse(l) > ast.unparse(r)):
+                    node.left, node.comparators = r, [l]
+        return node
+
     def visit_Call(self, node):
         self.generic_visit(node)
         if len(node.keywords) > 1:
@@ -74,6 +88,12 @@ class _Canon(ast.NodeTransformer):
         while i < len(stmts):
             s = stmts[i]
             nxt = stmts[i + 1] if i + 1 < len(stmts) else None
+            # t = e; return t   ->   return e
+            if (isinstance(s, ast.Assign) and len(s.targets) == 1 and isinstance(s.targets[0], ast.Name) and isinstance(nxt, ast.Return)
+                    and isinstance(nxt.value, ast.Name) and nxt.value.id == s.targets[0].id):
+                out.append(ast.copy_location(ast.Return(value=s.value), s))
+                i += 2
+                continue
             if (isinstance(s, ast.Expr) and isinstance(s.value, ast.Call) and isinstance(s.value.func, ast.Attribute) and s.value.func.attr == 'acquire'
                     and not s.value.args and not s.value.keywords and _lockish(s.value.func.value) and isinstance(nxt, ast.Try)
                     and not nxt.handlers and not nxt.orelse and len(nxt.finalbody) == 1 and isinstance(nxt.finalbody[0], ast.Expr)
@@ -109,6 +129,12 @@ def canonicalise(tree):
     tree = _Canon().visit(tree)
     ast.fix_missing_locations(tree)
     return tree
+
+
+def canon_text(text):
+    """Canonical normalised text of an expression given as source text (for comparing
+    against norm() of analysed code, which is canonicalised on load)."""
+    return ast.unparse(canonicalise(ast.parse(text, mode='eval')).body)
 
 
 class Module:
